@@ -59,6 +59,21 @@ def conserved(s, out):
 
 
 # ---- known findings: recognisers of the input shapes they cover (a violation outside these is reported)
+def _name_group_edge_blank(s):
+    """some \\begin{...} name group (matched by brace depth, or running to the end of the input when left open) starts
+    or ends with whitespace: TexExpr.__init__ strips the name (finding D17)"""
+    for m in re.finditer(r'\\begin\s*\{', s):
+        d, k = 1, m.end()
+        while k < len(s) and d > 0:
+            d += s[k] == '{'
+            d -= s[k] == '}'
+            k += 1
+        name = s[m.end():k - 1] if d == 0 else s[m.end():]
+        if name != name.strip():
+            return True
+    return False
+
+
 def finding_class(s):
     if re.search(r'\\begin\s*\{\s*\[tex\]\s*\}', s):
         return 'D18'
@@ -68,7 +83,7 @@ def finding_class(s):
     if re.search(r'\\begin\s*\[', s):
         return 'D6'
     if re.search(r'\\begin\s*\{\s+[^}]*\}', s) or re.search(r'\\begin\s*\{[^}]*\s+\}', s) or \
-            re.search(r'\\begin\s*\{\s', s) or re.search(r'\\begin\s*\{[^}]*\s$', s):
+            re.search(r'\\begin\s*\{\s', s) or re.search(r'\\begin\s*\{[^}]*\s$', s) or _name_group_edge_blank(s):
         return 'D17'     # (also when the name group is left open: the tolerant parser closes it and strips the name)
     return None
 
